@@ -130,7 +130,11 @@ func (w *CronWorker) Work() {
 	var scheduled uint64
 	for {
 		// Get the next job config that is due for scheduling, otherwise return early.
-		key, ts, ok := w.schedule.Pop(Clock.Now())
+		// NOTE: Use the same reference time as the one used to bump JobConfigs which
+		// exceeded the maximum missed schedules, otherwise the same JobConfig may be
+		// popped again forever if the clock advances past its next schedule time
+		// while this routine is running.
+		key, ts, ok := w.schedule.Pop(now)
 		if !ok {
 			break
 		}
